@@ -1,24 +1,33 @@
-(** Correspondence runner for C16: the implementation's listing for a window, as indices into
-    the shared list of recording instants, must equal the model's. *)
+(** Correspondence runner for C16: the implementation's listing for a window (and an optional
+    metadata filter), as indices into the shared list of recording instants, must equal the model's. *)
 From Playback Require Export Base.Str Cassette.Window.
 Open Scope Z_scope.
 
 Record case := Case {
   c_times : list Z;            (* instant of each saved recording (created = saved = last-modified) *)
+  c_tags : list Z;             (* metadata value 'g' of each saved recording (same length) *)
   c_start : Z;
   c_end : option Z;
   c_now : Z;
+  c_filter : option Z;         (* lookup metadata filter {'g': v}, or none *)
   c_impl : list nat            (* indices of the recordings the implementation listed, ascending *)
 }.
 
-Fixpoint listed_idx (n : nat) (s : Z) (eo : option Z) (now : Z) (ts : list Z) : list nat :=
-  match ts with
-  | [] => []
-  | t :: ts' => if listed_opt s eo now t then n :: listed_idx (S n) s eo now ts'
-                else listed_idx (S n) s eo now ts'
+Definition satisfies (f : option Z) (g : Z) : bool :=
+  match f with Some v => Z.eqb g v | None => true end.
+Definition filtered (f : option Z) : bool := match f with Some _ => true | None => false end.
+
+Fixpoint listed_idx (n : nat) (s : Z) (eo : option Z) (now : Z) (f : option Z) (ts gs : list Z) : list nat :=
+  match ts, gs with
+  | t :: ts', g :: gs' =>
+      if listed_matching s eo now (filtered f) t (satisfies f g)
+      then n :: listed_idx (S n) s eo now f ts' gs'
+      else listed_idx (S n) s eo now f ts' gs'
+  | _, _ => []
   end.
 
 Definition model_obs (c : case) : list nat :=
-  listed_idx 0 (c_start c) (c_end c) (c_now c) (c_times c).
+  listed_idx 0 (c_start c) (c_end c) (c_now c) (c_filter c) (c_times c) (c_tags c).
 
-Definition check_case (c : case) : bool := list_eqb Nat.eqb (model_obs c) (c_impl c).
+Definition check_case (c : case) : bool :=
+  Nat.eqb (length (c_times c)) (length (c_tags c)) && list_eqb Nat.eqb (model_obs c) (c_impl c).
